@@ -69,7 +69,9 @@ def gen_cases(rng, count, force=None, multi_eval=False, prefix="c", tweak=None):
         # with load matching, production is a small rational multiple of use so that exact
         # rational results keep small denominators (evaluation cost), except for short series
         b = gen.gen_building(rng, force=force, ratio_only=any(lm for (_, _, lm) in evals))
-        if tweak is not None:
+        # (not for long series with load matching: the exact rational model then sums a dozen unrelated fractions per carrier and its
+        # evaluation time explodes; short series exercise the same code)
+        if tweak is not None and not (any(lm for (_, _, lm) in evals) and b.n > 3):
             tweak(rng, b)
         c = EpCase("%s%d" % (prefix, i), {"text": b.text()}, fspec, user, evals, strip=rng.random() < 0.3,
                    tags=b.tags)
@@ -133,6 +135,14 @@ def run_model(cases, prop):
     return errors
 
 
+MODEL_MISSING = "model did not produce a result"
+
+
+def model_missing(bad):
+    """the only thing wrong with the case is that the model's evaluation did not complete (time limit): a harness matter"""
+    return bool(bad) and all(b.get("what") == MODEL_MISSING for b in bad)
+
+
 def compare_case(c, select=None):
     """-> list of disagreement records for this case (all evals)"""
     bad = []
@@ -142,7 +152,7 @@ def compare_case(c, select=None):
     for i, ev in enumerate(evs):
         m = c.model.get(i)
         if m is None:
-            bad.append({"eval": i, "what": "model did not produce a result"})
+            bad.append({"eval": i, "what": MODEL_MISSING})
             continue
         iep = ev.get("ep", {})
         if "ok" in iep:
